@@ -124,6 +124,10 @@ func (c *compiler) write(bb *strings.Builder, i interface{}) {
 		for _, ii := range t {
 			c.write(bb, ii)
 		}
+	case []template.HTML:
+		for _, ii := range t {
+			c.write(bb, ii)
+		}
 	case returnObject:
 		for _, ii := range t.Value {
 			c.write(bb, ii)
